@@ -193,8 +193,40 @@ func (l *List) M__iter__() (Object, error) {
 	return NewIterator(l), nil
 }
 
+// plainIndex returns key with its __index__ method, if it needs one,
+// already called.  The call can run Python code which changes the
+// list, so the length of the list must only be looked at afterwards.
+func plainIndex(key Object) (Object, error) {
+	switch key.(type) {
+	case Int, *BigInt, Bool, NoneType:
+		return key, nil
+	}
+	return Index(key)
+}
+
+// plainSlice does the same for the members of a slice
+func plainSlice(slice *Slice) (*Slice, error) {
+	step, err := plainIndex(slice.Step)
+	if err != nil {
+		return nil, err
+	}
+	start, err := plainIndex(slice.Start)
+	if err != nil {
+		return nil, err
+	}
+	stop, err := plainIndex(slice.Stop)
+	if err != nil {
+		return nil, err
+	}
+	return &Slice{Start: start, Stop: stop, Step: step}, nil
+}
+
 func (l *List) M__getitem__(key Object) (Object, error) {
 	if slice, ok := key.(*Slice); ok {
+		slice, err := plainSlice(slice)
+		if err != nil {
+			return nil, err
+		}
 		start, _, step, slicelength, err := slice.GetIndices(len(l.Items))
 		if err != nil {
 			return nil, err
@@ -205,6 +237,10 @@ func (l *List) M__getitem__(key Object) (Object, error) {
 		}
 		return newList, nil
 	}
+	key, err := plainIndex(key)
+	if err != nil {
+		return nil, err
+	}
 	i, err := IndexIntCheck(key, len(l.Items))
 	if err != nil {
 		return nil, err
@@ -214,13 +250,19 @@ func (l *List) M__getitem__(key Object) (Object, error) {
 
 func (l *List) M__setitem__(key, value Object) (Object, error) {
 	if slice, ok := key.(*Slice); ok {
-		start, stop, step, slicelength, err := slice.GetIndices(len(l.Items))
+		slice, err := plainSlice(slice)
 		if err != nil {
 			return nil, err
 		}
 		// Read all of value before changing the list: value may be
 		// the list itself or an iterator over it, or may raise
 		newItems, err := SequenceTuple(value)
+		if err != nil {
+			return nil, err
+		}
+		// Reading value may have changed the list too so only now
+		// work out where the slice is
+		start, stop, step, slicelength, err := slice.GetIndices(len(l.Items))
 		if err != nil {
 			return nil, err
 		}
@@ -243,6 +285,10 @@ func (l *List) M__setitem__(key, value Object) (Object, error) {
 			}
 		}
 	} else {
+		key, err := plainIndex(key)
+		if err != nil {
+			return nil, err
+		}
 		i, err := IndexIntCheck(key, len(l.Items))
 		if err != nil {
 			return nil, err
@@ -260,6 +306,10 @@ func (a *List) DelItem(i int) {
 // Removes items from a list
 func (a *List) M__delitem__(key Object) (Object, error) {
 	if slice, ok := key.(*Slice); ok {
+		slice, err := plainSlice(slice)
+		if err != nil {
+			return nil, err
+		}
 		start, _, step, slicelength, err := slice.GetIndices(len(a.Items))
 		if err != nil {
 			return nil, err
@@ -280,6 +330,10 @@ func (a *List) M__delitem__(key Object) (Object, error) {
 			}
 		}
 	} else {
+		key, err := plainIndex(key)
+		if err != nil {
+			return nil, err
+		}
 		i, err := IndexIntCheck(key, len(a.Items))
 		if err != nil {
 			return nil, err
